@@ -319,6 +319,87 @@ pub fn run(tier: Tier) -> ! {
         fams.push(json!({"family": "(d) long patterns: 0..69 ASCII characters followed by 24 one- to four-byte characters, plain or with an unsupported construct / syntax error planted at the start, at the end or nested; runs of 100..5000 multi-byte characters; slots 0,3,4,7", "patterns": cases.len(), "exhaustive": true}));
     }
 
+    // (e) a supported class next to an unsupported spelling of the same property: classes are
+    // registered once per scanner, so the rejected one must not be folded into the accepted one
+    {
+        let names = ["L", "Lu", "Alphabetic", "White_Space", "Uppercase", "XID_Start", "Greek", "Nd"];
+        let mut cases: Vec<(String, Vec<(String, String)>)> = vec![];
+        for n in names {
+            let goods: Vec<String> = [format!("\\p{{{n}}}"), format!("\\P{{{n}}}"), format!("[\\p{{{n}}}a]"), if n.len() == 1 { format!("\\p{n}") } else { format!("[^\\P{{{n}}}]") }].into_iter().filter(|g| classify(g) == Class::Supported).collect();
+            let bads: Vec<String> = vec![format!("\\p{{{n}=Yes}}"), format!("\\p{{{n}:No}}"), format!("\\p{{{n}!=Yes}}"), format!("\\P{{{n}=Yes}}"), format!("\\p{{gc={n}}}"), format!("\\p{{sc:{n}}}"), format!("[\\p{{{n}=Yes}}]"), format!("\\p{{{n}x}}")];
+            let mut pairs = vec![];
+            for g in &goods {
+                for b in &bads {
+                    pairs.push((g.clone(), b.clone()));
+                }
+            }
+            cases.push((n.to_string(), pairs));
+        }
+        let flat: Vec<(String, String)> = cases.into_iter().flat_map(|c| c.1).collect();
+        let accs = par_for(flat.len(), 8, || Acc { samples: Samples::new(1), ..Default::default() }, |acc, i| {
+            let (g, b) = &flat[i];
+            if classify(b) == Class::Supported {
+                return; // the oracle itself accepts this spelling: nothing to demand
+            }
+            let mode = |name: &str, pats: Vec<CPat>| CMode { name: name.into(), pats, transitions: vec![] };
+            let la = |p: &str, pos: bool, l: &str| CPat { pat: p.into(), tt: 0, la: Some((pos, l.into())) };
+            let layouts: Vec<(&str, Cfg)> = vec![
+                ("accepted pattern, then rejected pattern in one mode", Cfg { modes: vec![mode("A", vec![CPat::new(g, 0), CPat::new(b, 1)])] }),
+                ("rejected pattern, then accepted pattern in one mode", Cfg { modes: vec![mode("A", vec![CPat::new(b, 0), CPat::new(g, 1)])] }),
+                ("accepted in mode 0, rejected in mode 1", Cfg { modes: vec![mode("A", vec![CPat::new(g, 0)]), mode("B", vec![CPat::new(b, 0)])] }),
+                ("accepted pattern with the rejected one as its positive lookahead", Cfg { modes: vec![mode("A", vec![la(g, true, b)])] }),
+                ("accepted pattern with the rejected one as its negative lookahead", Cfg { modes: vec![mode("A", vec![la(g, false, b)])] }),
+                ("accepted lookahead of an earlier pattern, rejected pattern later", Cfg { modes: vec![mode("A", vec![la("a", true, g), CPat::new(b, 1)])] }),
+                ("both in one pattern", Cfg::single(vec![CPat::new(&format!("{g}+{b}+"), 0)])),
+                ("both in one alternation", Cfg::single(vec![CPat::new(&format!("({g}|{b})"), 0)])),
+                ("both in one bracket", Cfg::single(vec![CPat::new(&format!("[{g}{b}]"), 0)])),
+            ];
+            for (what, cfg) in layouts {
+                judge(acc, &format!("{what}: {g:?} and {b:?}"), &cfg, false, false, "twins");
+            }
+            // and the accepted spelling twice is accepted
+            judge(acc, &format!("accepted spelling twice: {g:?}"), &Cfg { modes: vec![mode("A", vec![CPat::new(g, 0), la("a", true, g)]), mode("B", vec![CPat::new(g, 1)])] }, true, false, "twins");
+        });
+        let n = flat.len();
+        for a in accs {
+            merge(&mut total, a);
+        }
+        fams.push(json!({"family": "(e) an accepted spelling of a Unicode property (\\p{N}, \\P{N}, [\\p{N}a], ...) next to a valued / unknown spelling of the same name (\\p{N=Yes}, \\p{N:No}, \\p{N!=Yes}, \\P{N=Yes}, \\p{gc=N}, \\p{sc:N}, [\\p{N=Yes}], \\p{Nx}) for 8 property names, in 9 layouts (same mode either order, other mode, lookahead of it, one pattern, one bracket)", "pairs": n, "exhaustive": true}));
+    }
+
+    // (f) ranges and literals at the borders of the scalar value space and of the UTF-8 lengths
+    {
+        let b: [u32; 13] = [0, 1, 0x7f, 0x80, 0x7ff, 0x800, 0xd7ff, 0xe000, 0xfffd, 0xffff, 0x10000, 0x10fffe, 0x10ffff];
+        let mut pats: Vec<String> = vec![];
+        for &lo in &b {
+            pats.push(format!("\\x{{{lo:x}}}"));
+            pats.push(format!("[\\x{{{lo:x}}}]"));
+            pats.push(format!("[^\\x{{{lo:x}}}]"));
+            for &hi in &b {
+                if lo <= hi {
+                    let r = format!("\\x{{{lo:x}}}-\\x{{{hi:x}}}");
+                    pats.push(format!("[{r}]"));
+                    pats.push(format!("[^{r}]+"));
+                    pats.push(format!("[a[{r}]]"));
+                    pats.push(format!("[{r}&&[^a]]"));
+                    pats.push(format!("[\\w--[{r}]]"));
+                }
+            }
+        }
+        let accs = par_for(pats.len(), 16, || Acc { samples: Samples::new(1), ..Default::default() }, |acc, i| {
+            let p = &pats[i];
+            let expect = classify(p) == Class::Supported;
+            for slot in [0usize, 3, 4, 6] {
+                judge(acc, &format!("border range/literal {p:?} in slot {slot}"), &in_slot(p, slot), expect, false, "borders");
+            }
+        });
+        let n = pats.len();
+        for a in accs {
+            merge(&mut total, a);
+        }
+        fams.push(json!({"family": "(f) literals and ranges whose bounds are U+0000, U+0001, U+007F/80, U+07FF/800, U+D7FF, U+E000, U+FFFD, U+FFFF, U+10000, U+10FFFE, U+10FFFF (all ordered pairs), plain, negated, nested, intersected, subtracted; as pattern and as lookahead", "patterns": n, "exhaustive": true}));
+    }
+
     // (c) through the cache: classification independent of the cache, no panic poisons it
     let lc = if tier == Tier::Quick { 3 } else { 4 };
     let mut acc = Acc { samples: Samples::new(1), ..Default::default() };
